@@ -35,6 +35,20 @@ func genC04(r *Rng) *Plan {
 	p := &Plan{Cfg: cfg, Users: stdUsers, Gen: "lineage"}
 	host := cfg.Routes[0].From
 	p.Steps = append(p.Steps, Step{Op: "login", B: "b1", User: "alice@example.com", Host: host, Target: "/"})
+	if r.Chance(1, 5) {
+		// two devices of one user, one of them revoked (or the user removed from the groups after the
+		// first device's last check); both are due for the same kind of check and their requests overlap:
+		// each session is served only after the authenticator confirmed *its* token
+		p.Gen = "lineage+twin"
+		p.Steps = append(p.Steps, Step{Op: "login", B: "t2", User: "alice@example.com", Host: host, Target: "/"})
+		p.Steps = append(p.Steps, Step{Op: "idp", Sub: "revoke-browser", B: r.Pick("t2", "b1")})
+		first, second := "b1", "t2"
+		if r.Chance(1, 2) {
+			first, second = "t2", "b1"
+		}
+		p.Steps = append(p.Steps, Step{Op: "get", B: first, Host: host, Target: r.Pick("/", "/private/x", "/oauth2/auth"), Dt: r.PickDur(cfg.ValidTTL+3*time.Second, cfg.TokenTTL+3*time.Second),
+			Twin: &Step{Op: "get", B: second, Host: host, Target: r.Pick("/", "/private/y", "/oauth2/auth")}})
+	}
 	n := r.Range(5, 30)
 	adminP := r.Pick("none", "low", "mid")
 	for i := 0; i < n; i++ {
